@@ -45,10 +45,10 @@ def pyramid_shapes(cell):
     return cur, det
 
 
-def build(cell):
+def build(cell, dtype=None):
     import torch
     import pytorch_wavelets as pw
-    with util.default_dtype(torch.float64):
+    with util.default_dtype(dtype or torch.float64):
         if cell['dim'] == 1:
             return pw.DWT1DInverse(wave=c01.wave_arg(cell, True), mode=c01.lib_mode(cell))
         return pw.DWTInverse(wave=c01.wave_arg(cell, True), mode=c01.lib_mode(cell))
